@@ -42,12 +42,12 @@ def gen_c14(tier, rng):
     ns = len(srcs)
     # exhaustive: store of 3 objects, sequences of <= 3 (quick) / 4 operations, sources drawn from the corner cases
     opsk = ["copy", "move", "assign", "massign"]
-    depth = 2 if tier == "quick" else 3
     triples = list(itertools.product(range(ns), repeat=3))
     rng.shuffle(triples)
-    triples = triples[:12 if tier == "quick" else 60]
-    for init in triples:
+    triples = triples[:12 if tier == "quick" else 80]
+    for ti, init in enumerate(triples):
         defs = [srcs[k].line("o%d" % i) for i, k in enumerate(init)]
+        depth = 2 if (tier == "quick" or ti >= 3) else 3      # thorough: depth 3 for three initial stores, depth 2 for the rest
         for L in range(1, depth + 1):
             for seq in itertools.product(itertools.product(opsk, range(3), range(3)), repeat=L):
                 if any(o in ("move",) and a == b for o, a, b in seq):
